@@ -60,10 +60,10 @@ FSqrt(m, nr, v) ==
         \* state <<M, c, t, R>>; at most s rounds
         st == FoldLeft(LAMBDA S, round :
                          IF S[3] = N1 THEN S
-                         ELSE LET i  == FOrderExp(m, S[3], S[1] - 1)
-                                  b  == FSqrN(m, S[2], S[1] - i - 1)
-                                  b2 == FMul(m, b, b)
-                              IN  <<i, b2, FMul(m, S[3], b2), FMul(m, S[4], b)>>,
+                         ELSE ELet(FOrderExp(m, S[3], S[1] - 1), LAMBDA i :
+                              ELet(FSqrN(m, S[2], S[1] - i - 1), LAMBDA b :
+                              ELet(FMul(m, b, b), LAMBDA b2 :
+                                <<i, b2, FMul(m, S[3], b2), FMul(m, S[4], b)>>))),
                        <<s, c0, t0, r0>>, FIdx(s))
     IN  <<TRUE, st[4]>>
 
